@@ -58,6 +58,9 @@ func (tc *TotalCalculator) prepareLines(taxLines []*taxLine) error {
 	// First, prepare all tax combos using the country, tags, and date
 	for _, tl := range taxLines {
 		for _, combo := range tl.taxes {
+			if combo == nil {
+				continue
+			}
 			if err := combo.calculate(tc.Country, tc.Tags, tc.Date); err != nil {
 				return err
 			}
@@ -93,6 +96,9 @@ func (tc *TotalCalculator) calculateBaseRateTotals(taxLines []*taxLine, t *Total
 	// Go through each line and add the total to the base of each tax
 	for _, tl := range taxLines {
 		for _, c := range tl.taxes {
+			if c == nil {
+				continue
+			}
 			rt := t.rateTotalFor(c, tc.zero)
 			rt.Base = matchRoundingPrecision(tc.Rounding, rt.Base, tl.total)
 			rt.Base = rt.Base.Add(tl.total)
@@ -107,12 +113,15 @@ type taxLine struct {
 }
 
 func mapTaxLines(lines []TaxableLine) []*taxLine {
-	tls := make([]*taxLine, len(lines))
-	for i, v := range lines {
-		tls[i] = &taxLine{
+	tls := make([]*taxLine, 0, len(lines))
+	for _, v := range lines {
+		if isNil(v) {
+			continue // null rows have nothing to tax
+		}
+		tls = append(tls, &taxLine{
 			total: v.GetTotal(),
 			taxes: v.GetTaxes(),
-		}
+		})
 	}
 	return tls
 }
